@@ -17,6 +17,7 @@ RULE = ('parents that create key lifetimes {group_by, roll x6 (w,s), split, time
         'in front of the inner pipeline define the lifetimes; what the tap behind the inner pipeline sees for lifetime (k, j) must '
         'equal the output of the same pipeline run standalone (fresh store, one key) on exactly that lifetime\'s items. '
         'Non-trivial = at least two lifetimes of which one reuses a key index or overlaps another in time.')
+DEEP_PROBES = ('20 and 150 simultaneously live groups for every inner pipeline')
 ASSUMPTIONS = ['inner pipelines are deterministic functions of their input (user functions are pure)',
                'lengths, alphabets and nesting depth beyond the bounds are not covered']
 LEVEL_TEXT = ('Bounded-exhaustive model checking with a differential oracle that needs no hand-written expectation: every lifetime '
